@@ -16,6 +16,7 @@ demo = open(os.path.join(wt, 'demo%s.py' % n)).read()
 demo = demo.replace(repr(wt), "__import__('os').environ.get('BOLTONS_ROOT', '/repo')")
 demo = demo.replace('"%s"' % wt, "__import__('os').environ.get('BOLTONS_ROOT', '/repo')")
 demo = demo.replace(wt, '/repo')
+demo = re.sub(r"startswith\((['\"])/repo/?\1\)", "startswith(__import__('os').environ.get('BOLTONS_ROOT', '/repo'))", demo)
 open(os.path.join(d, 'demo.py'), 'w').write(demo)
 files = sorted(set(re.findall(r'^\+\+\+ b/(\S+)', patch, re.M)))
 meta = {'id': sid, 'property': prop, 'files': files, 'needs_to_manifest': needs,
